@@ -12,8 +12,11 @@ The number of statements and the exact value of every literal come from mc/ref/s
 lexical rules; it is also cross-checked against the composition on every text: a disagreement is a harness error).
 
 Sub-products (all written out below; TIER selects the reduced or the full alphabets)
-  LIT    templates with a literal slot x literal contents x {alone, followed by a sentinel statement}
-         x separator/comment styles x cursor class x return_cursors
+  LIT    templates with a literal slot x literal contents (punctuation, quotes, backslashes, unicode, and white
+         space as data: TAB, CR, CRLF, VT/FF, blanks at the ends, constants spanning indented lines) x statement
+         layout {one line, several lines with indented continuation lines} x {alone, followed by a sentinel
+         statement} x separator/comment styles (incl. indented / tab-indented blocks) with tuple cursors, plus
+         Dict cursors on STYLES_QUICK and return_cursors=False on STYLES_RC_FALSE
   LISTS  statement lists (all sequences up to a length over the statement alphabet, plus a longer bound over a core
          alphabet) x styles x cursor class x return_cursors
   KINDS  one statement per supported statement kind (the round trip through parser+generator is per kind)
@@ -21,6 +24,9 @@ Sub-products (all written out below; TIER selects the reduced or the full alphab
   EMPTY  texts without any statement (comments, blanks, semicolons)
   NOP    pattern sets x statements (match at start / only later / other case / no match) x parameters x
          {cursor.execute, execute_string} x cursor class
+  NOPH   pattern sets x cursor class x prior history of the cursor (new / query unfetched / partly / fully fetched /
+         exhausted / failed statement / DML / a matching statement before) x target (matching statements with and
+         without parameters, ordinary queries) x fetch mode (fetchall / fetchone until None / fetchmany(2) twice)
 
 Clauses
   C16.count      no statement fails: execute_string returns exactly one cursor per statement of the reference split
@@ -35,17 +41,24 @@ Clauses
   C16.empty      a text without statements returns no cursor and does not raise
   C16.nop.match  a statement matching a pattern returns the single row ('Statement executed successfully.',) in a
                  column named status, raises nothing and leaves digest / session view unchanged
+  C16.nop.cursor a statement executed on a cursor that was used before is observed (rows in every fetch mode,
+                 rowcount, description, sqlstate) exactly as on a new cursor; a matching one reads as the status row
   C16.nop.other  any other statement gives the same outcome (rows, rowcount, description, exception, final state) as
                  on an instance created without the option
 
 Classes (deterministic, from the input shape and from what one-by-one execution did; never from values/messages)
-  LIT    tmpl=<template>,lit=<literal id>                       (all styles / cursor classes of a literal together)
-  KIND   kind=<statement kind>
+  LIT    tmpl=<template>,lit=<literal id>[,quote-in-inline-comment=<same-line|own-line>]   (all styles / cursor
+         classes of a literal together, except the texts in which a comment *inside* a statement contains an
+         apostrophe; same-line = the comment starts on the line of the code before it);
+         tmpl=set_var,own-line-comment-before-name for the SET template with a comment on a line of its own between
+         SET and the variable name (all literals together)
+  KIND   kind=<statement kind>[,quote-in-inline-comment=..]
   LIST   C16.failure: list:unparsable=<none|first-failure|after-first-failure>   (where the statement that does not
          parse stands relative to the first statement that fails one by one);  C16.digest:
          list:unparsable=<none|present>,<effect-before|no-effect-before>   (do the statements before the first
          failing one leave a net effect: net_effect(), a 10-line model of begin/commit/rollback);  else list:no-failure
   EMPTY  text=<token kinds present>
+  NOPH   target=<match|other>,prior=<history id>
   NOP    path=<execute|execute_string>,params=<yes|no>,patset=<id>,without-option=<ok|parse-error|error>
          (how the statement fares on an instance without the option)
 
@@ -94,6 +107,7 @@ FIXTURE = [
 # literal contents: id -> source text between the single quotes (value is computed by the reference reader)
 # =====================================================================================================================
 NL = "\n"
+TAB = "\t"
 BS = "\\"
 LITS = {
     "plain": "abc",
@@ -117,8 +131,29 @@ LITS = {
     "newline": "new" + NL + "line",
     "unicode": "❄ é 日本 \U0001f389",
     "percent": "100% %s",
+    # white space is data inside a constant: raw TAB / CR / CRLF / VT / FF, blanks at the ends, runs of blanks,
+    # constants that span several lines whose continuation lines are indented (by blanks, by a TAB), blank lines,
+    # line breaks at the ends; letter case and unicode normal form are data too
+    "tab": "a" + TAB + "b",
+    "tab_lead": TAB + "x",
+    "pad_spaces": "  pad  ",
+    "only_spaces": "   ",
+    "multi_spaces": "a  b   c",
+    "cr": "a\rb",
+    "crlf": "a\r\nb",
+    "vt_ff": "a\x0bb\x0cc",
+    "indented_lines": "first" + NL + "    second" + NL + "    third",
+    "tab_indented_lines": "first" + NL + TAB + "second",
+    "blank_line": "a" + NL + NL + "b",
+    "nl_ends": NL + "line" + NL,
+    "mixed_case": "MiXeD select FROM",
+    "nfd": "e\u0301x",
+    "unicode_spaces": "a\u00a0b\u2003c\u3000d",  # no-break space, em space, ideographic space
 }
-LITS_QUICK = ["plain", "quote2", "semi_end", "dashdash_nl", "block_open", "dollar", "bs_bs", "bs_quote", "unicode"]
+LITS_QUICK = [
+    "plain", "quote2", "semi_end", "dashdash_nl", "block_open", "dollar", "bs_bs", "bs_quote", "unicode",
+    "tab", "pad_spaces", "crlf", "indented_lines", "nl_ends", "unicode_spaces",
+]  # fmt: skip
 
 # content of $$...$$ constants (no escapes inside)
 DLITS = {
@@ -127,8 +162,12 @@ DLITS = {
     "d_bs": "a" + BS + "tb",
     "d_newline": "multi" + NL + "line;",
     "d_quotes": "'';\"x\"",
+    "d_tab": "a" + TAB + "b",
+    "d_indented_lines": "begin" + NL + "    end",
+    "d_pad_spaces": "  x  ",
+    "d_crlf": "a\r\nb",
 }
-DLITS_QUICK = ["d_semi", "d_quote_comment", "d_bs"]
+DLITS_QUICK = ["d_semi", "d_quote_comment", "d_bs", "d_tab", "d_indented_lines"]
 
 # content of "..." identifiers (source between the double quotes)
 ILITS = {
@@ -137,26 +176,45 @@ ILITS = {
     "i_comment": "x -- y /* z */",
     "i_quote": "it's",
     "i_lower": "lower",
+    "i_pad_spaces": "  a  b ",
+    "i_tab": "a" + TAB + "b",
 }
-ILITS_QUICK = ["i_semi", "i_dq", "i_quote"]
+ILITS_QUICK = ["i_semi", "i_dq", "i_quote", "i_pad_spaces"]
 
 # templates: id -> (statements with slot {L}, slot family, probe)
 #   probe = (index of the cursor whose first row's first column must equal the literal value) | ("desc", index)
+#   {NL} marks the places where the statement is broken into lines by a layout (see LAYOUTS)
 TEMPLATES = {
-    "select": (["select '{L}'"], "sq", ("row", 0)),
-    "select_dollar": (["select $${L}$$"], "dq", ("row", 0)),
-    "select_ident": (['select 1 as "{L}"'], "id", ("desc", 0)),
-    "insert": (["insert into t values (3, '{L}')", "select v from t where k = 3"], "sq", ("row", 1)),
+    "select": (["select{NL}'{L}'"], "sq", ("row", 0)),
+    "select_dollar": (["select{NL}$${L}$$"], "dq", ("row", 0)),
+    "select_ident": (['select 1{NL}as "{L}"'], "id", ("desc", 0)),
+    "insert": (["insert into t{NL}values (3, '{L}')", "select v{NL}from t{NL}where k = 3"], "sq", ("row", 1)),
     "merge": (
         [
-            "merge into t using s on t.k = s.k when matched then update set v = '{L}' "
+            "merge into t using s on t.k = s.k{NL}when matched then update set v = '{L}'{NL}"
             "when not matched then insert (k, v) values (s.k, s.v)",
-            "select v from t where k = 1",
+            "select v{NL}from t{NL}where k = 1",
         ],
         "sq",
         ("row", 1),
     ),
-    "set_var": (["set v = '{L}'", "select $v"], "sq", None),  # differential only (value semantics: C15)
+    "set_var": (["set v ={NL}'{L}'", "select{NL}$v"], "sq", None),  # differential only (value semantics: C15)
+}
+# how a template statement is laid out: on one line, or over several lines with indented continuation lines (the way
+# statements are written in scripts); the literal's own line breaks / indentation are data and independent of it
+LAYOUTS = {"oneline": " ", "indented": NL + "    "}
+
+
+def template_statements(tid, lid, layout, tail):
+    tmpl, fam, _ = TEMPLATES[tid]
+    stmts = [t.replace("{NL}", LAYOUTS[layout]).replace("{L}", lit_source(fam, lid)) for t in tmpl]
+    return stmts + ([SENTINEL] if tail == "sentinel" else [])
+
+
+# (layout, tail) combinations per tier
+LIT_SHAPES = {
+    "quick": [("oneline", "alone"), ("indented", "sentinel")],
+    "thorough": [(lay, tail) for lay in ("oneline", "indented") for tail in ("alone", "sentinel")],
 }
 SENTINEL = "select 2"
 
@@ -246,6 +304,14 @@ KINDS = {
     "current": ["select current_database(), current_schema()"],
     "info_schema": ["select table_name from information_schema.tables where table_schema = 'S1' order by 1"],
     "timestamp": ["select '2020-01-02 03:04:05'::timestamp_ntz, to_date('2020-01-02')"],
+    "multiline_select": ["select k,\n       v\n  from t\n where v = 'a'\n order by k"],
+    "multiline_ddl_dml": [
+        "create table ml (\n    a int,\n    b varchar\n)",
+        "insert into ml\n    values (1, 'x\n    y'),\n           (2, 'p\tq')",
+        "select a,\n       b\n  from ml\n order by a",
+    ],
+    "tab_separated": ["select\tk\tfrom\tt\torder by k"],
+    "crlf_lines": ["select k\r\n  from t\r\n where v = 'a\r\n'\r\n    or k = 2\r\n order by k"],
     "create_types": ["create table ty (a number(10,2), b timestamp_ntz, c variant, d boolean, e float, f date)", "describe table ty"],
 }
 
@@ -254,12 +320,11 @@ KINDS = {
 # =====================================================================================================================
 
 
-def _inline(stmt: str, comment: str) -> str:
-    """put a comment right after the statement's first word (every alphabet statement starts `word blank`)"""
-    head, _, rest = stmt.partition(" ")
-    if not rest:
-        return stmt + " " + comment
-    return head + " " + comment + rest
+def _inline(stmt: str, comment: str, own_line: bool = False) -> str:
+    """put a comment right after the statement's first word, on the same line as that word (or on a line of its own),
+    in front of whatever white space follows the word"""
+    i = next((j for j, ch in enumerate(stmt) if ch in sf_split.WS), len(stmt))
+    return stmt[:i] + (NL if own_line else " ") + comment + stmt[i:]
 
 
 STYLES = {
@@ -277,11 +342,16 @@ STYLES = {
     "lc_before_semi": lambda ss: "".join(s + " -- c\n; " for s in ss),
     "inline_bc": lambda ss: "; ".join(_inline(s, "/* mid; */ ") for s in ss) + ";",
     "inline_lc": lambda ss: "; ".join(_inline(s, "-- mid; 'q\n") for s in ss) + ";",
+    "inline_lc_own_line": lambda ss: "; ".join(_inline(s, "-- mid; 'q\n", own_line=True) for s in ss) + ";",
     "tail_comments": lambda ss: "".join(s + "; " for s in ss) + "-- end\n;; /* fin */ ; -- x",
     "lead_semis": lambda ss: ";; -- x\n; " + "; ".join(ss),
+    # the text as it stands in an indented triple-quoted block: every statement starts on its own indented line
+    "indented_block": lambda ss: NL + "".join("        " + s + ";" + NL for s in ss) + "    ",
+    "tab_block": lambda ss: "".join(TAB + s + TAB + ";" + NL for s in ss),
 }
-STYLES_QUICK = ["semi_sp", "semi_tight", "lc_tricky", "bc_tricky", "inline_lc", "lead_semis"]
-LIST_STYLES = {"quick": ["semi_tight", "bc_tricky"], "thorough": ["semi_tight", "bc_tricky", "inline_lc"]}
+STYLES_QUICK = ["semi_sp", "semi_tight", "lc_tricky", "bc_tricky", "inline_lc", "inline_lc_own_line", "indented_block"]
+STYLES_RC_FALSE = ["semi_sp", "bc_tricky", "inline_lc", "indented_block"]  # styles also run with return_cursors=False
+LIST_STYLES = {"quick": ["semi_tight", "bc_tricky"], "thorough": ["semi_tight", "bc_tricky", "indented_block"]}
 
 EMPTY_TEXTS = [
     "",
@@ -348,6 +418,35 @@ NOP_QUICK_STMTS = [
     "insert_t_uc", "truncate", "delete_uc", "update_t", "update_s", "p_call_1", "p_call_2", "p_insert_t", "p_select", "p_update_t",
 ]  # fmt: skip
 STATUS_ROW = ("Statement executed successfully.",)
+
+# ---- NOPH: a statement executed on a cursor that was used before (all statements here leave the state alone, even
+# when they are really executed, so every history of an item runs on one instance; verified by the digest)
+H_QUERY = "select k from t union all select k from s order by 1"  # 4 rows, not the target's result
+H_PRIORS = {
+    # id -> operations on the cursor before the target statement
+    "new_cursor": [],
+    "query_unfetched": [("exec", H_QUERY)],
+    "query_fetchone": [("exec", H_QUERY), ("one",)],
+    "query_fetchmany2": [("exec", H_QUERY), ("many", 2)],
+    "query_fetchall": [("exec", H_QUERY), ("all",)],
+    "query_exhausted": [("exec", H_QUERY), ("all",), ("one",)],
+    "failed_statement": [("exec", "select * from nope")],
+    "dml": [("exec", "update s set v = v where k = 1"), ("all",)],
+    "nop_fetched": [("match",), ("all",)],  # a matching statement and its row (only for sets that have one)
+    "nop_unfetched": [("match",)],
+}
+H_PRIORS_QUICK = ["new_cursor", "query_unfetched", "query_fetchone", "query_fetchall", "failed_statement", "nop_fetched"]
+# pattern set -> [(statement, params)] that match (state-preserving also when really executed)
+H_MATCHING = {
+    "none": [],
+    "empty": [],
+    "call": [("call x()", None), ("call x(%s)", (1,))],
+    "grant_revoke": [("grant select on t to role r", None)],
+    "effect": [("update t set v = v where k = 1", None)],
+    "subst": [("call x(1)", None), ("call x(%s)", (1,))],
+}
+H_OTHER = [("select v from s order by k", None), ("select v from s where k >= %s order by k", (1,))]
+H_MODES = ["all", "one_by_one", "many2"]
 
 
 def nop_expected_match(patset, sql, params) -> bool:
@@ -579,8 +678,8 @@ def items(tier):
     out = []
     for tid, (_, fam, _) in TEMPLATES.items():
         for lid in lit_alphabet(fam, tier):
-            for tail in ("alone", "sentinel"):
-                out.append(("LIT", tid, lid, tail))
+            for layout, tail in LIT_SHAPES[tier]:
+                out.append(("LIT", tid, lid, layout, tail))
     seen = set()
     for alpha, maxlen in LIST_BOUNDS[tier]:
         for ln in range(0 if not seen else 1, maxlen + 1):
@@ -596,6 +695,9 @@ def items(tier):
     for ps in PATSETS:
         for sid in NOP_QUICK_STMTS if tier == "quick" else NOP_STMTS:
             out.append(("NOP", ps, sid))
+    for ps in PATSETS:
+        for cls in ("tuple", "dict"):
+            out.append(("NOPH", ps, cls))
     return out
 
 
@@ -605,7 +707,11 @@ def variants(part, tier):
         st = STYLES_QUICK if tier == "quick" else list(STYLES)
         if tier == "quick":
             return [(s, "tuple", True) for s in st] + [("bc_tricky", "dict", True), ("semi_sp", "tuple", False)]
-        return [(s, c, r) for s in st for c in ("tuple", "dict") for r in (True, False)]
+        return (
+            [(s, "tuple", True) for s in st]
+            + [(s, "dict", True) for s in STYLES_QUICK]
+            + [(s, "tuple", False) for s in STYLES_RC_FALSE]
+        )
     if part == "LIST":
         st = LIST_STYLES[tier]
         if tier == "quick":
@@ -613,8 +719,8 @@ def variants(part, tier):
         return [(s, "tuple", True) for s in st] + [(st[0], "dict", True), (st[1], "tuple", False)]
     if part == "KIND":
         if tier == "quick":
-            return [("bc_tricky", "tuple", True), ("semi_sp", "dict", True)]
-        st = ["semi_sp", "semi_tight", "bc_tricky", "inline_bc", "inline_lc"]
+            return [("bc_tricky", "tuple", True), ("inline_lc_own_line", "tuple", True), ("semi_sp", "dict", True)]
+        st = ["semi_sp", "semi_tight", "bc_tricky", "inline_bc", "inline_lc", "inline_lc_own_line", "indented_block"]
         return [(s, "tuple", True) for s in st] + [(st[0], "dict", True)]
     raise AssertionError(part)
 
@@ -623,13 +729,15 @@ def work(item, acc: core.Acc, tier):
     part = item[0]
     if part == "NOP":
         return work_nop(item, acc, tier)
+    if part == "NOPH":
+        return work_noph(item, acc, tier)
     if part == "EMPTY":
         return work_empty(item, acc, tier)
     probe = ref_value = None
     if part == "LIT":
-        _, tid, lid, tail = item
-        tmpl, fam, probe = TEMPLATES[tid]
-        stmts = [s.replace("{L}", lit_source(fam, lid)) for s in tmpl] + ([SENTINEL] if tail == "sentinel" else [])
+        _, tid, lid, layout, tail = item
+        _, fam, probe = TEMPLATES[tid]
+        stmts = template_statements(tid, lid, layout, tail)
         if probe is not None:
             ref_value = lit_value(fam, lid)
     elif part == "LIST":
@@ -694,7 +802,7 @@ def net_effect(prefix: str) -> bool:
     return eff or tx
 
 
-def class_key(clause, item, one, rc=True):
+def class_key(clause, item, one, rc=True, text=None):
     """Deterministic class of a case for a clause, or None if the clause cannot be evaluated for the case.
     Names the input shape (template / literal id / statement kind / where the list fails), never values or
     messages.  What one-by-one execution did (index and kind of the first failing statement) is part of the shape."""
@@ -706,10 +814,18 @@ def class_key(clause, item, one, rc=True):
         return None
     if clause == "C16.literal" and (part != "LIT" or TEMPLATES[item[1]][2] is None or not rc):
         return None
+    # a comment inside a statement that contains an apostrophe (reference tokenizer) is part of the shape
+    quote = ""
+    if text:
+        where = sorted({"own-line" if own else "same-line" for c, own in sf_split.inline_comments(text) if "'" in c})
+        quote = ",quote-in-inline-comment=" + "+".join(where) if where else ""
+        if part == "LIT" and item[1] == "set_var" and any(own for _, own in sf_split.inline_comments(text)):
+            # SET <comment on a line of its own> name = ...: the shape is the statement, whatever the literal
+            return "tmpl=set_var,own-line-comment-before-name"
     if part == "LIT":
-        return f"tmpl={item[1]},lit={item[2]}"
+        return f"tmpl={item[1]},lit={item[2]}{quote}"
     if part == "KIND":
-        return f"kind={item[1]}"
+        return f"kind={item[1]}{quote}"
     if part != "LIST":
         raise AssertionError(item)
     seq = item[1]
@@ -733,7 +849,7 @@ def report(acc, item, style, cls, rc, stmts, text, one, bad, tier):
             continue
         failed.setdefault(clause, (reason, detail))
     for clause in CLAUSES:
-        k = class_key(clause, item, one, rc)
+        k = class_key(clause, item, one, rc, text)
         if k is None:
             continue
         acc.member(clause, k, clause in failed)
@@ -831,6 +947,144 @@ def work_nop(item, acc, tier):
     return None
 
 
+# ---- NOPH ----------------------------------------------------------------------------------------------------------
+def _h_apply(cur, op, match_stmt):
+    """one operation on a cursor; exceptions are part of the observation"""
+    try:
+        if op[0] == "exec":
+            cur.execute(op[1])
+            return ("exec",)
+        if op[0] == "match":
+            sql, params = match_stmt
+            cur.execute(sql) if params is None else cur.execute(sql, params)
+            return ("exec",)
+        if op[0] == "one":
+            return ("one", cur.fetchone())
+        if op[0] == "many":
+            return ("many", cur.fetchmany(op[1]))
+        if op[0] == "all":
+            return ("all", cur.fetchall())
+    except Exception as e:  # noqa: BLE001
+        return ("err",) + _exc(e)[:3]
+    raise AssertionError(op)
+
+
+def _h_observe(cur, target, mode):
+    """execute the target on the cursor and read its result in the given mode"""
+    sql, params = target
+    out = []
+    try:
+        cur.execute(sql) if params is None else cur.execute(sql, params)
+    except Exception as e:  # noqa: BLE001
+        return [("err",) + _exc(e)[:3]]
+    out.append(("rowcount", cur.rowcount, "sqlstate", cur.sqlstate))
+    try:
+        out.append(("desc", [tuple(d) for d in cur.description]))
+    except Exception as e:  # noqa: BLE001
+        out.append(("desc-err",) + _exc(e)[:3])
+    try:
+        if mode == "all":
+            out.append(("all", cur.fetchall()))
+            out.append(("then-one", cur.fetchone()))
+        elif mode == "one_by_one":
+            rows = []
+            for _ in range(6):
+                r = cur.fetchone()
+                rows.append(r)
+                if r is None:
+                    break
+            out.append(("ones", rows))
+        else:
+            out.append(("many", cur.fetchmany(2), cur.fetchmany(2)))
+    except Exception as e:  # noqa: BLE001
+        out.append(("fetch-err",) + _exc(e)[:3])
+    return out
+
+
+def h_expected_status(mode, cls):
+    """what reading the one-row success status gives in each mode (reference; rowcount/description are compared
+    with the new-cursor execution instead)"""
+    row = {"status": STATUS_ROW[0]} if cls == "dict" else STATUS_ROW
+    if mode == "all":
+        return [("all", [row]), ("then-one", None)]
+    if mode == "one_by_one":
+        return [("ones", [row, None])]
+    return [("many", [row], [])]
+
+
+def work_noph(item, acc, tier):
+    """For one pattern set and cursor class: every (prior history, target statement, fetch mode) on one instance.
+    Oracle: the target executed on the used cursor is observed exactly as the same target executed on a new cursor
+    (rows in every fetch mode, rowcount, description, sqlstate), and a matching target reads as the status row."""
+    import fakesnow.instance as inst
+
+    _, ps, cls = item
+    logging.disable(logging.WARNING)
+    fs = inst.FakeSnow(nop_regexes=PATSETS[ps])
+    try:
+        conn = fs.connect(database="db1", schema="s1")
+        c0 = conn.cursor()
+        for f in FIXTURE:
+            c0.execute(f)
+        pre = repr(take_state(fs, conn, False))
+        matching = H_MATCHING[ps]
+        targets = [("match", t) for t in matching] + [("other", t) for t in H_OTHER]
+        priors = H_PRIORS_QUICK if tier == "quick" else list(H_PRIORS)
+        for tkind, target in targets:
+            if tkind == "match" and not nop_expected_match(ps, *target):
+                raise core.HarnessError(f"{target} does not match {ps} according to the reference")
+            for mode in H_MODES:
+                fresh = _h_observe(conn.cursor(_cursor_class(cls)), target, mode)
+                for pid in priors:
+                    ops = H_PRIORS[pid]
+                    if any(o[0] == "match" for o in ops) and not matching:
+                        continue
+                    cur = conn.cursor(_cursor_class(cls))
+                    before = [_h_apply(cur, o, matching[0] if matching else None) for o in ops]
+                    got = _h_observe(cur, target, mode)
+                    acc.count("evaluations")
+                    acc.count("cursor_histories")
+                    acc.obs((item, tkind, target, mode, pid, repr(before), repr(got)))
+                    acc.outcome(("noph", tkind, mode, repr(got)[:120]))
+                    if pid != "new_cursor":
+                        acc.nontrivial((ps, cls, tkind, target, mode, pid))
+                    problems = []
+                    if repr(got) != repr(fresh):
+                        problems.append(("differs from a new cursor", {"used_cursor": got, "new_cursor": fresh}))
+                    if tkind == "match":
+                        want = h_expected_status(mode, cls)
+                        if repr(got[2:]) != repr(want):
+                            problems.append(("not the status row", {"got": got[2:], "expected": want}))
+                        if len(got) > 1 and got[1][0] == "desc" and [d[0] for d in got[1][1]] != ["status"]:
+                            problems.append(("column name", got[1]))
+                    k = f"target={tkind},prior={pid}"
+                    acc.member("C16.nop.cursor", k, bool(problems))
+                    if problems:
+                        acc.violation(
+                            "C16.nop.cursor",
+                            k,
+                            {"patterns": PATSETS[ps], "cursor_class": cls, "prior": ops, "target": target,
+                             "fetch_mode": mode, "problems": problems},
+                            {"part": "noph", "patset": ps, "cursor_class": cls, "tier": tier},
+                        )  # fmt: skip
+        post = repr(take_state(fs, conn, False))
+        acc.member("C16.nop.cursor", "state-after-all-histories", post != pre)
+        if post != pre:
+            acc.violation(
+                "C16.nop.cursor",
+                "state-after-all-histories",
+                {"patterns": PATSETS[ps], "note": "statements that match or do not change anything changed the state"},
+                {"part": "noph", "patset": ps, "cursor_class": cls, "tier": tier},
+            )
+    finally:
+        try:
+            fs.duck_conn.close()
+        except Exception:  # noqa: BLE001
+            pass
+    acc.sample({"item": item, "priors": priors, "matching": matching, "modes": H_MODES})
+    return None
+
+
 def nop_match_problems(r):
     problems = []
     if r["exc"] is not None:
@@ -858,11 +1112,13 @@ def run(ctx: core.Ctx):
     its = items(ctx.tier)
     ctx.rule = (
         "complete products, every element executed on two fresh instances (execute_string vs one by one): "
-        "LIT = templates x literal contents x {alone, +sentinel} x styles x cursor class x return_cursors; "
+        "LIT = templates x literal contents x LIT_SHAPES (layout, tail) x styles (tuple; Dict on STYLES_QUICK; "
+        "return_cursors=False on STYLES_RC_FALSE); "
         "LIST = every statement sequence within LIST_BOUNDS x styles x cursor class/return_cursors variants; "
         "KIND = one list per statement kind x styles; EMPTY = statement-free texts x cursor class/return_cursors; "
         "NOP = pattern sets x statements x {execute, execute_string} x cursor class, with-option vs without-option "
-        "instances; non-trivial = text whose one-by-one execution changes state, fails, or has > 1 statement, and "
+        "instances; NOPH = pattern sets x cursor class x prior cursor histories x targets x fetch modes, used cursor "
+        "vs new cursor; non-trivial = text whose one-by-one execution changes state, fails, or has > 1 statement, and "
         "nop cases the reference says match"
     )
     ctx.assumptions = [
@@ -883,6 +1139,9 @@ def run(ctx: core.Ctx):
         "empty_texts": len(EMPTY_TEXTS),
         "patsets": list(PATSETS),
         "nop_statements": NOP_QUICK_STMTS if ctx.quick else list(NOP_STMTS),
+        "cursor_history_priors": H_PRIORS_QUICK if ctx.quick else list(H_PRIORS),
+        "cursor_history_modes": H_MODES,
+        "layouts": sorted({x[0] for x in LIT_SHAPES[ctx.tier]}),
     }
     ctx.extra["items"] = len(its)
     ctx.pmap(work, its)
@@ -916,6 +1175,8 @@ def replay(payload):
     elif r["part"] == "empty":
         i = EMPTY_TEXTS.index(r["text"])
         work_empty(("EMPTY", i), acc, "quick")
+    elif r["part"] == "noph":
+        work_noph(("NOPH", r["patset"], r["cursor_class"]), acc, r.get("tier", "thorough"))
     elif r["part"] == "nop":
         work_nop(("NOP", r["patset"], r["stmt"]), acc, "thorough")
     else:
